@@ -43,10 +43,12 @@ Slice    == \E r \in Live, sl \in {"first", "tail", "even", "last", "none", "rev
 Mask     == \E r \in Live, m \in {"all", "nothing", "odd"} : Alloc(NextReg(r), MaskT(T(r), m), [op |-> "Mask", r |-> r, rd |-> NextReg(r), m |-> m, mask |-> MaskOf(NR(T(r)), m)])
 Take     == \E r \in Live, pos \in {<<0>>, <<-1, 0>>, <<1, 1>>} : Alloc(NextReg(r), TakeT(T(r), pos), [op |-> "Take", r |-> r, rd |-> NextReg(r), pos |-> pos])
 Project  == \E r \in Live, cs \in {<<"a">>, <<"b", "a">>} : Alloc(NextReg(r), ProjectT(T(r), cs), [op |-> "Project", r |-> r, rd |-> NextReg(r), cs |-> cs])
-Derive   == \E r \in Live, cf \in {<<"c", "copy_a">>, <<"a", "a_or_2">>, <<"b", "const_x">>} :
+Derive   == \E r \in Live, cf \in {<<"c", "copy_a">>, <<"a", "a_or_2">>, <<"b", "const_x">>, <<"c", "copy_key">>} :
+               (cf[2] = "copy_key" => HasCol(T(r), "key")) /\      \* without such a column the library hands f its hidden key = <new column name>
                Alloc(NextReg(r), DeriveT(T(r), cf[1], cf[2]), [op |-> "Derive", r |-> r, rd |-> NextReg(r), c |-> cf[1], f |-> cf[2]])
 Do       == \E r \in Live, cs \in {<<>>, <<"a">>} : Range(cs) \subseteq ColSet(T(r)) /\ Alloc(NextReg(r), DoT(T(r), cs), [op |-> "Do", r |-> r, rd |-> NextReg(r), cs |-> cs])
 Rename   == \E r \in Live : ~HasCol(T(r), "d") /\ Alloc(NextReg(r), RenameT(T(r), "a", "d"), [op |-> "Rename", r |-> r, rd |-> NextReg(r), c |-> "a", c2 |-> "d"])
+Swap     == \E r \in Live : (HasCol(T(r), "a") /\ HasCol(T(r), "b")) /\ Alloc(NextReg(r), SwapT(T(r), "a", "b"), [op |-> "Swap", r |-> r, rd |-> NextReg(r), c |-> "a", c2 |-> "b"])
 Concat   == \E ra \in Live, rb \in Live : Alloc("r3", ConcatT(T(ra), T(rb)), [op |-> "Concat", ra |-> ra, rb |-> rb, rd |-> "r3"])
 AddRec   == \E r \in Live, rec \in {<<<<"a", V2>>>>, <<<<"c", VX>>, <<"a", None>>>>} :
                Alloc(NextReg(r), ConcatT(T(r), RecordT(rec)), [op |-> "AddRecord", r |-> r, rd |-> NextReg(r), rec |-> rec])
@@ -58,7 +60,7 @@ AddNone  == \E r \in Live : Alias(NextReg(r), r, [op |-> "AddNone", r |-> r, rd 
 ConcatOne == \E r \in Live : Alias(NextReg(r), r, [op |-> "ConcatOne", r |-> r, rd |-> NextReg(r)])
 
 Init == heap = <<>> /\ reg = [r \in Regs |-> 0] /\ out = "ok" /\ hist = <<>>
-Next == New \/ SetCol \/ DelCol \/ Update \/ Slice \/ Mask \/ Take \/ Project \/ Derive \/ Do \/ Rename \/ Concat \/ AddRec \/ Copy \/ NoFilter \/ AddNone \/ ConcatOne
+Next == New \/ SetCol \/ DelCol \/ Update \/ Slice \/ Mask \/ Take \/ Project \/ Derive \/ Do \/ Rename \/ Swap \/ Concat \/ AddRec \/ Copy \/ NoFilter \/ AddNone \/ ConcatOne
 Bound == Len(hist) <= MaxDepth /\ \A o \in 1..Len(heap) : Len(heap[o].rows) <= MaxRowsC
 View == <<heap, reg, out>>
 
